@@ -27,7 +27,7 @@ UNITS = ['plain', 'Hz', 'kHz', 'MHz', 'GHz', 'npscalar']
 def required(tier):
     b = {f'route:{r}': 3 for r in ROUTES}
     b.update({f'units:{u}': 3 for u in UNITS})
-    b.update({'orient:asc': 10, 'orient:desc': 10, 'twin': 5})
+    b.update({'orient:asc': 10, 'orient:desc': 10, 'twin': 5, 'df:negative-argument': 10})
     return {'buckets': b, 'counters': {'invariant_evals': 100, 'roundtrip_channels': 1000}, 'checks': 500}
 
 
@@ -59,7 +59,7 @@ def gen_cases(seed, tier):
         if fch1 - fchans * df <= 1e6:
             fch1 = fchans * df + 1e7
         c = dict(route=route, units=units, asc=asc, fchans=fchans, tchans=tchans, df=df, dt=dt, fch1=fch1,
-                 sub=int(rng.integers(2 ** 31)))
+                 sub=int(rng.integers(2 ** 31)), neg_df=bool(i % 7 == 3 and route != 'backend'))
         if route == 'backend':
             P = int(2 ** rng.integers(3, 12))
             L = int(common.pick(rng, [1, 2, 8, 1024, 1048576, 3, 1000]))
@@ -92,6 +92,8 @@ def build(stg, c, asc=None, fch1=None):
     fch1 = c['fch1'] if fch1 is None else fch1
     un = c['units']
     df, dt, f1 = _q(c['df'], un, 'f'), _q(c['dt'], un, 't'), _q(fch1, un, 'f')
+    if c.get('neg_df'):
+        df = -df            # a negative channel width (filterbank foff convention) describes the same grid
     route = c['route']
     if route == 'sizes':
         fc = c['fchans'] * u.pixel if un in ('MHz', 'kHz') else c['fchans']
@@ -155,6 +157,8 @@ def run_case(c, R):
     R.bucket('route:' + c['route'])
     R.bucket('units:' + c['units'])
     R.bucket('orient:asc' if c['asc'] else 'orient:desc')
+    if c.get('neg_df'):
+        R.bucket('df:negative-argument')
     inv = [0]
 
     def on_fail(method, prob):
